@@ -154,6 +154,8 @@ func flowsToSliceHigh(cnt ssa.Value, depth int, seen map[ssa.Value]bool) bool {
 func c07R1(r *Report) {
 	p := r.P
 	readCountsUsed(r, "R1", map[string]bool{"crypto": true, "protocol": true}, 6)
+	c08ReadExact(r.sub("R1"), "R6")
+	readFullChecked(r, "R1", map[string]bool{"crypto": true, "protocol": true}, 5)
 	c07R1b(r, p)
 }
 
